@@ -3,7 +3,7 @@ Require Extraction.
 Require Import ExtrOcamlBasic.
 From Coq Require Import ZArith QArith List.
 From Pandora Require Import Lib.Value Lib.Arr Lib.Blocks Model.Filters Model.FiltersCheck Gen.Constants.
-From Pandora Require Import Lib.NpArr Model.FiltersNp.
+From Pandora Require Import Lib.NpNd Model.FiltersNp.
 From Pandora Require Gen.BlockLoops Gen.FilterKernels.
 Import ListNotations.
 Open Scope Z_scope.
@@ -91,7 +91,7 @@ Definition dispatch (fid : Z) (v : value) : value :=
     let ny := as_z (vnth 1 v) in
     let nx := as_z (vnth 2 v) in
     of_b (median_map_spec_b rad ny nx (dec_map (vnth 3 v)) (dec_map (vnth 4 v)))
-  (* 7 / 8 / 9: the GENERATED code (Gen/FilterKernels.v over the numpy combinators of Lib/NpArr.v, the
+  (* 7 / 8 / 9: the GENERATED code (Gen/FilterKernels.v over the numpy combinators of Lib/NpNd.v, the
      block loop = BlockSkeleton.exec of the generated skeleton) run as it is, error flag first *)
   | 7 => (* generated median filter_disparity: (w ny nx disp mask) -> (err disp mask) *)
     let w := as_z (vnth 0 v) in
